@@ -1,5 +1,6 @@
 import Plotink.Proofs.C12Core
 import Plotink.Proofs.C12Parse
+import Plotink.Proofs.C12Gen
 
 /-! # C12 — length parsing and unit conversion are mutually consistent and follow SVG units
 
@@ -184,5 +185,102 @@ theorem C12_reject :
 example : parseLength (some ['1','2','e','m',' ']) = none ∧ getLength (some ['1','2','e','m',' ']) 7 = .none := by
   obtain ⟨a, _, b, _⟩ := C12_reject.1 ['1','2','e','m',' '] 'm' (by decide) (by decide) (by decide) (by decide) (by decide) (by decide)
   exact ⟨a, b 7⟩
+
+/-! ## Statements about the SOURCE-REGENERATED code
+
+`Gen.parseLengthWithUnits`, `Gen.unitsToUserUnits`, `Gen.userUnitToUnits` are regenerated from
+`plotink/plot_utils.py` by the translator on every run.  A Python `str` is `Py.Val.str s` (`s : String`,
+`Py.ofL l = .str (String.ofList l)`); numbers are `int`s or `float`s (`Py.IsNum v q`).  The parser theorem holds
+for every rounding mode; the table theorems are in exact arithmetic (`Rounding.exact`) with the float literals
+of the source as the doubles they denote (`C12.genFactor`), which is why the SVG factor appears up to `2^-52`.
+Proofs: `Proofs/C12Gen.lean`. -/
+
+/-- **bridge** (parser) `Gen.parseLengthWithUnits = C12.parseLength`: `None` gives `(None, None)`; text the model
+rejects gives `(None, None)`; text the model reads as the finite value `q` with unit `u` gives
+`(float correctly rounded from q, u)`.  Every rounding mode. -/
+theorem C12_gen_parse (R : Rounding) (amb : Nat) :
+    Gen.parseLengthWithUnits R amb .none_ = .tup [.none_, .none_] ∧
+    ∀ s : String,
+      (parseLength (some s.toList) = none → Gen.parseLengthWithUnits R amb (.str s) = .tup [.none_, .none_]) ∧
+      (∀ q u, parseLength (some s.toList) = some (.fin q, u) →
+        Gen.parseLengthWithUnits R amb (.str s) = .tup [.flt (R.f64 q), Py.ofL u]) :=
+  ⟨parse_none_arg R amb, fun s => parse_bridge R amb s⟩
+
+/-- `C12_parse` for the regenerated parser: numeral, unit spelling and surrounding blanks -/
+theorem C12_gen_parse_spec (R : Rounding) (amb : Nat) (ws ws' body u : List Char) (q : Rat)
+    (hws : ∀ c ∈ ws, isPySpace c = true) (hws' : ∀ c ∈ ws', isPySpace c = true)
+    (hv : parseFloat body = some (.fin q))
+    (hfirst : ∀ c, body.head? = some c → isPySpace c = false)
+    (hlast : ∃ d, body.getLast? = some d ∧ (isDigit d = true ∨ d = '.'))
+    (hu : u ∈ [[], ['p','x'], ['i','n'], ['m','m'], ['c','m'], ['p','t'], ['p','c'], ['Q'], ['q'], ['%']]) :
+    Gen.parseLengthWithUnits R amb (Py.ofL (ws ++ ((body ++ u) ++ ws'))) = .tup [.flt (R.f64 q), Py.ofL (canonUnit u)] := by
+  have h := C12_parse ws ws' body u (.fin q) hws hws' hv hfirst hlast hu
+  have := (parse_bridge R amb (String.ofList (ws ++ ((body ++ u) ++ ws')))).2 q (canonUnit u)
+    (by rw [String.toList_ofList]; exact h)
+  exact this
+
+/-- `C12_tables_unitsToUserUnits` for the regenerated code: value × factor, the factor being the SVG factor up to
+the representation error of the source's float literals (relative `2^-52`) -/
+theorem C12_gen_tables_unitsToUserUnits (amb : Nat) (s : String) (ref : Py.Val) (v f : Rat) (u : List Char)
+    (hp : parseLength (some s.toList) = some (.fin v, u)) (hf : svgFactor u = some f) :
+    ∃ f', genFactor u = some f' ∧ |f' - f| ≤ f / 2 ^ 52 ∧
+      Gen.unitsToUserUnits Rounding.exact amb (.str s) ref = .flt (v * f') := by
+  obtain ⟨f', h1, h2⟩ := genFactor_close u f hf
+  exact ⟨f', h1, h2, uu_tables amb s ref v f' u hp h1⟩
+
+/-- `C12_tables_userUnitToUnits` for the regenerated code: value ÷ factor; `''` reads as px, `q` as `Q` -/
+theorem C12_gen_tables_userUnitToUnits (amb : Nat) (dv : Py.Val) (d f : Rat) (u : List Char)
+    (hd : Py.IsNum dv d) (hf : svgFactor u = some f) :
+    (∃ g, genBackFactor u = some g ∧ |g - f| ≤ f / 2 ^ 52 ∧
+      Gen.userUnitToUnits Rounding.exact amb dv (Py.ofL u) = .flt (d / g)) ∧
+    Gen.userUnitToUnits Rounding.exact amb dv (Py.ofL []) = .flt d ∧
+    Gen.userUnitToUnits Rounding.exact amb dv (Py.ofL ['q']) = Gen.userUnitToUnits Rounding.exact amb dv (Py.ofL ['Q']) := by
+  obtain ⟨g, h1, h2⟩ := genBackFactor_close u f hf
+  refine ⟨⟨g, h1, h2, back_tables amb dv d g u hd h1⟩, ?_, ?_⟩
+  · rw [back_tables amb dv d 1 [] hd (by decide +kernel), div_one]
+  · rw [back_tables amb dv d _ ['q'] hd (by decide +kernel : genBackFactor ['q'] = some (96 / (40 * lit2_54))),
+      back_tables amb dv d _ ['Q'] hd (by decide +kernel : genBackFactor ['Q'] = some (96 / (40 * lit2_54)))]
+
+/-- percentages in the regenerated code: of the supplied reference — every reference, `0` included — else of 1;
+and back -/
+theorem C12_gen_percent (amb : Nat) (s : String) (v : Rat)
+    (hp : parseLength (some s.toList) = some (.fin v, ['%'])) :
+    Gen.unitsToUserUnits Rounding.exact amb (.str s) .none_ = .flt (v / 100) ∧
+    (∀ (rv : Py.Val) (r : Rat), Py.IsNum rv r →
+      Gen.unitsToUserUnits Rounding.exact amb (.str s) rv = .flt (v * r / 100)) ∧
+    (∀ (dv : Py.Val) (d : Rat), Py.IsNum dv d →
+      Gen.userUnitToUnits Rounding.exact amb dv (Py.ofL ['%']) = .flt (d * 100)) :=
+  ⟨(uu_percent amb s v hp).1, (uu_percent amb s v hp).2, fun dv d hd => back_percent amb dv d hd⟩
+
+/-- `C12_roundtrip` for the regenerated code (exact arithmetic): to user units and back returns the value — exactly
+for every unit but `Q`; for `Q` up to relative `2^-52`, because the source writes that factor as `101.6` in one
+function and as `40.0 * 2.54` in the other, which are two different doubles -/
+theorem C12_gen_roundtrip (amb : Nat) (s : String) (v : Rat) (u : List Char)
+    (hp : parseLength (some s.toList) = some (.fin v, u)) :
+    (u ≠ ['Q'] → u ≠ ['%'] → ∀ ref,
+      Gen.userUnitToUnits Rounding.exact amb (Gen.unitsToUserUnits Rounding.exact amb (.str s) ref) (Py.ofL u) = .flt v) ∧
+    (u = ['%'] →
+      Gen.userUnitToUnits Rounding.exact amb (Gen.unitsToUserUnits Rounding.exact amb (.str s) .none_) (Py.ofL u) = .flt v) ∧
+    (u = ['Q'] → ∀ ref, ∃ v',
+      Gen.userUnitToUnits Rounding.exact amb (Gen.unitsToUserUnits Rounding.exact amb (.str s) ref) (Py.ofL u) = .flt v' ∧
+      |v' - v| ≤ |v| / 2 ^ 52) :=
+  gen_roundtrip amb s v u hp
+
+/-- `C12_reject` for the regenerated code (every rounding mode): rejected text, `None` input and unsupported unit
+strings give `None` -/
+theorem C12_gen_reject (R : Rounding) (amb : Nat) :
+    (∀ ref, Gen.unitsToUserUnits R amb .none_ ref = .none_) ∧
+    (∀ (s : String) ref, parseLength (some s.toList) = none → Gen.unitsToUserUnits R amb (.str s) ref = .none_) ∧
+    (∀ uv, Gen.userUnitToUnits R amb .none_ uv = .none_) ∧
+    (∀ (dv : Py.Val) (u : List Char),
+      u ∉ [[], ['p','x'], ['i','n'], ['m','m'], ['c','m'], ['p','t'], ['p','c'], ['Q'], ['q'], ['%']] →
+      Gen.userUnitToUnits R amb dv (Py.ofL u) = .none_) :=
+  ⟨fun ref => (uu_none R amb ref).1, fun s ref h => (uu_none R amb ref).2 s h, (back_none R amb).1, (back_none R amb).2⟩
+
+/-- non-vacuity: `" 25.4mm"` meets the hypotheses; the regenerated converter returns `25.4 × 96 / (the double 25.4)` -/
+example : parseLength (some (" 25.4mm" : String).toList) = some (.fin (127 / 5), ['m', 'm']) ∧
+    svgFactor ['m', 'm'] = some (96 / (254 / 10)) := ⟨by decide +kernel, by decide +kernel⟩
+example : Gen.unitsToUserUnits Rounding.exact 53 (.str " 25.4mm") .none_ = .flt (127 / 5 * (96 / lit25_4)) :=
+  uu_tables 53 " 25.4mm" .none_ (127 / 5) _ ['m', 'm'] (by decide +kernel) (by decide +kernel)
 
 end Plotink
